@@ -150,6 +150,19 @@ func runFaultCase(c *ctx, fc faultCase) (labels []string) {
 	if post.ticket == nil && pre.ticket != nil {
 		post.ticket = pre.ticket
 	}
+	// a browser follows the automatic-retry redirect of a failed logout (the fault has cleared by then): where does the CHAIN end, and is the entry gone?
+	finalStatus, finalExists := resp.Status, s.mr.Exists(ticket.Key())
+	if (fc.handler == "logout" || fc.handler == "logoutlocal") && resp.Status == 307 {
+		cur := resp
+		for hop := 0; hop < 5 && cur.Status == 307 && cur.Location != ""; hop++ {
+			next := cur.Location
+			if strings.HasPrefix(next, "/") {
+				next = base + next
+			}
+			cur = pb.do(rp, "GET", next, hdr)
+		}
+		finalStatus, finalExists = cur.Status, s.mr.Exists(ticket.Key())
+	}
 	ups := s.upSince(nUp)
 	upAuth := "-"
 	if len(ups) > 0 {
@@ -184,7 +197,7 @@ func runFaultCase(c *ctx, fc faultCase) (labels []string) {
 	kv := []any{"handler", fc.handler, "prestate", fc.pre, "fpos", fc.plan.pos, "flabel", hx(faultLabel), "focc", occ, "fkind", fc.plan.kind, "fcount", fc.plan.count, "now", now,
 		"newat", hx(fmt.Sprintf("at%d", hr.genNext(pre))), "newrt", hx(fmt.Sprintf("rt%d", hr.genNext(pre))), "secs", int64(600), "tookms", took.Milliseconds(), "trace", sc.trace}
 	kv = append(kv, hr.stFields("", pre)...)
-	kv = append(kv, "status", resp.Status, "fwd", len(ups) > 0, "upauth", upAuth, "contacted", contacted, "granted", granted, "cleared", clearedSession(resp))
+	kv = append(kv, "status", resp.Status, "fwd", len(ups) > 0, "upauth", upAuth, "contacted", contacted, "granted", granted, "cleared", clearedSession(resp), "finalstatus", finalStatus, "finalexists", finalExists)
 	kv = append(kv, hr.stFields("p", post)...)
 	c.count("fault:" + fc.plan.kind)
 	c.emit("fault", kv...)
